@@ -31,7 +31,15 @@ RULE = (
     "the same name AND the same 32-bit identifier hash but different field lists (adjacent fields (t1,n1),(t2,n2) merged into "
     "(t2, n1+t1+n2)), same interleavings plus A A B B A B, through ONE writer; the grouped family: GroupedRecords of 1-3 "
     "members sharing some field names, distinct metadata per member, expected = the flat view computed from the members "
-    "(first member wins a shared name; first member's metadata; record name = group name); the rest are random mixes.  Oracle: (a) the raw text splits into standalone documents with "
+    "(first member wins a shared name; first member's metadata; record name = group name); write histories: (1) ONE record "
+    "object written 2-8 times with field assignments, in-place list operations (typed elements) and digest slot "
+    "assignments between the writes, random flushes, one more modification after the last write, through JsonfileWriter "
+    "itself, RecordWriter(x.json / x.jsonl / jsonfile://) and (sampled) rdump -w jsonfile:// - expected line k = the "
+    "observation taken at the k-th write() call; (2) records the encoder refuses (integer beyond "
+    "sys.get_int_max_str_digits(), also inside varint[]; a set legacy net.ipv4.Address field; a nested record whose type is "
+    "first seen inside the failing record) in the patterns BG, BGG, BBG, GBG, BOG, BGOG, OBGB (B refused, G good record of "
+    "that type, O other type) with the application catching the exception - expected = every record whose write() "
+    "returned, in order; the rest are random mixes.  Oracle: (a) the raw text splits into standalone documents with "
     "json.JSONDecoder.raw_decode, each accepted by a strict RFC 8259 parser (NaN/Infinity tokens refused, duplicate keys "
     "refused) - one document per line without indent, multi-line documents indented by the requested width with indent; "
     "(b) the record documents correspond 1:1, in order, to the records written, their keys are the record's fields in "
@@ -55,6 +63,9 @@ ASSUMPTIONS = [
     "order; its absence is recorded, not judged; jq 1.6 itself accepts NaN/Infinity tokens so it is not the strictness oracle",
     "grouped records: member field names never equal a GroupedRecord attribute (name, records, descriptors, flat_fields, "
     "fieldname_to_record), which would shadow the member field (C15's finding); members are plain records, not nested groups",
+    "write histories: in-place list changes insert elements already converted to the element type (list.append itself "
+    "does not convert - C05's subject); a refused record is one whose write() raises (if the tree accepts it the case is "
+    "abandoned and counted, not judged); the rdump path compares against what the intermediate stream file holds",
     "values come from the pools in verif/gen.py (lone surrogates outside U+DC80-DCFF and sub-second UTC offsets are not generated)",
 ]
 SHARDS = {"quick": 8, "thorough": 16}
@@ -325,6 +336,22 @@ def generate(ctx):
                     yield {"k": "coin", "kk": k, "order": order, "cfg": cfg, "via": ("uri", "path", "pathl")[(j + rep + 1) % 3],
                            "s": subseed("c14", ctx.seed, "coin", k, tuple(order), rep)}
                 idx += 1
+    # write histories (1): one record object written repeatedly, modified between the writes
+    vias = ("uri", "path", "pathl", "direct")
+    for i in range(ctx.scale(40, 200)):
+        cfg = (0, 3, 0, 3, (1, 2, 4, 5)[i % 4])[(i + ctx.shard) % 5]
+        yield {"k": "rewrite", "cfg": cfg, "via": vias[(i + ctx.shard) % 4], "rdump": bool(i % 10 == 0 and cfg in (0, 3)),
+               "s": subseed("c14", ctx.seed, "rewrite", ctx.shard, i)}
+    # write histories (2): records the encoder refuses, the application carries on with the same writer
+    idx = 0
+    for rep in range(ctx.scale(2, 8)):
+        for fk in ("hugeint", "hugeint-list", "legacy-ip", "nested"):
+            for j, pat in enumerate(("BG", "BGG", "BBG", "GBG", "BOG", "BGOG", "OBGB")):
+                for cfg in (0, 3, (1, 2, 4, 5)[(j + rep) % 4]):
+                    if ctx.mine(idx + 1):
+                        yield {"k": "fail", "fk": fk, "pat": pat, "cfg": cfg, "via": vias[(j + rep + idx) % 4],
+                               "s": subseed("c14", ctx.seed, "fail", fk, pat, cfg, rep)}
+                    idx += 1
     # grouped records: stored as their flat view
     for i in range(ctx.scale(30, 150)):
         yield {"k": "group", "cfg": (0, 3, 0, 3, (1, 2, 4, 5)[i % 4])[(i + ctx.shard) % 5], "via": ("uri", "path", "pathl")[i % 3],
@@ -485,14 +512,20 @@ def same_scalar(exp, got):
 
 
 # ---- the case -------------------------------------------------------------------------------------------
-def write_records(ctx, case, records, descriptors, indent):
-    """-> (path, description of how the writer was opened).  Uses the real RecordWriter."""
+def open_writer(ctx, case, descriptors, indent):
+    """-> (writer, path, description of how it was opened).  via: 'uri' (jsonfile:// with a query), 'path' / 'pathl'
+    (x.json / x.jsonl with keyword arguments) through RecordWriter, 'direct' = JsonfileWriter itself."""
     from flow.record import RecordWriter
 
     via = case["via"]
     ext = ".jsonl" if via == "pathl" else ".json"
     path = os.path.join(ctx.state["tmp"], "c%d%s" % (ctx.evaluations, ext))
     kwargs = {}
+    if via == "direct":
+        from flow.record.adapter.jsonfile import JsonfileWriter
+
+        kwargs = {"indent": indent, "descriptors": descriptors}
+        return JsonfileWriter(path, **kwargs), path, {"target": "JsonfileWriter(<tmp>/%s)" % os.path.basename(path), "kwargs": kwargs}
     if via == "uri":
         q = []
         if indent is not None:
@@ -508,19 +541,301 @@ def write_records(ctx, case, records, descriptors, indent):
             kwargs["indent"] = indent
         if not descriptors:
             kwargs["descriptors"] = False
-    w = RecordWriter(target, **kwargs)
+    return RecordWriter(target, **kwargs), path, {"target": target.replace(ctx.state["tmp"], "<tmp>"), "kwargs": kwargs}
+
+
+def write_records(ctx, case, records, descriptors, indent):
+    """-> (path, description of how the writer was opened).  Uses the real RecordWriter."""
+    w, path, how = open_writer(ctx, case, descriptors, indent)
     try:
         for r in records:
             w.write(r)
         w.flush()
     finally:
         w.close()
-    return path, {"target": target.replace(ctx.state["tmp"], "<tmp>"), "kwargs": kwargs}
+    return path, how
+
+
+# ---- write histories: a re-used record object, records that cannot be serialised -------------------------
+def _hexs(rng, nbytes):
+    return "".join(rng.choice("0123456789abcdef") for _ in range(nbytes * 2))
+
+
+def mutate_record(rng, b, rec):
+    """What a producer re-using one record object does between two writes: assign other values to some fields (the
+    assignment converts to the field type), change a list value in place (typed elements), set a digest slot in place."""
+    tuples = rec._desc.get_field_tuples()
+    done = []
+    for _ in range(rng.randint(1, 3)):
+        t, n = rng.choice(tuples)
+        cur = getattr(rec, n)
+        r = rng.random()
+        if t.endswith("[]") and cur is not None and r < 0.6:
+            et = type(cur).__type__
+            op = rng.choice(["append", "pop", "clear", "reverse", "setitem", "extend"])
+            if op in ("pop", "setitem") and not len(cur):
+                op = "append"
+
+            def elem():
+                v = b.value(t[:-2], "random")
+                return v if isinstance(v, et) else et(v)
+
+            if op == "append":
+                cur.append(elem())
+            elif op == "extend":
+                cur.extend([elem(), elem()])
+            elif op == "pop":
+                cur.pop()
+            elif op == "clear":
+                del cur[:]
+            elif op == "reverse":
+                cur.reverse()
+            else:
+                cur[rng.randrange(len(cur))] = elem()
+            done.append("%s:list-%s" % (n, op))
+        elif t == "digest" and cur is not None and r < 0.6:
+            which = rng.choice(["md5", "sha1", "sha256"])
+            setattr(cur, which, _hexs(rng, {"md5": 16, "sha1": 20, "sha256": 32}[which]))
+            done.append("%s:digest-%s" % (n, which))
+        else:
+            vcs = [c for c in gen.classes_for(t) if c != "extreme"]
+            setattr(rec, n, b.value(t, rng.choice(vcs)))
+            done.append("%s:assign" % n)
+    return done
+
+
+def history_rewrite(ctx, case, w, note):
+    """The same record object written again and again, modified between the writes (and once more after the last
+    write, before close).  -> observations taken at the moment of each write() call, in order."""
+    from flow.record import RecordDescriptor
+
+    rng = random.Random(case["s"])
+    b = JBuilder(rng, thorough=False, max_depth=0)
+    d = b.descriptor(nfields=rng.randint(1, 6), types=SUPPORTED, allow_keyword=False)
+    names = [n for _, n in d.get_field_tuples()]
+    seqname = "seq" if "seq" not in names else "seq_%d" % len(names)
+    d = RecordDescriptor(d.name, [("varint", seqname)] + list(d.get_field_tuples()))
+    rec = b.record(d)
+    other = b.record(b.descriptor(nfields=rng.randint(1, 3), types=SUPPORTED, allow_keyword=False))
+    written = []
+    stream = note.get("stream")
+    n = rng.choice([2, 3, 5, 8])
+    for i in range(n):
+        setattr(rec, seqname, i)
+        if i:
+            for m in mutate_record(rng, b, rec):
+                ctx.event("rewrite_mutation:" + m.split(":")[1])
+        observe.assert_typed(rec, "re-used record")
+        written.append(observe.normalise(observe.obs(rec)))
+        w.write(rec)
+        if stream is not None:
+            stream.write(rec)
+        if rng.random() < 0.15:
+            w.flush()
+            ctx.event("rewrite_flush_between_writes")
+        if rng.random() < 0.25:
+            written.append(observe.normalise(observe.obs(other)))
+            w.write(other)
+            if stream is not None:
+                stream.write(other)
+    # a producer that marks / recycles the object after its last write
+    setattr(rec, seqname, -1)
+    mutate_record(rng, b, rec)
+    ctx.event("rewrite_writes_of_the_same_object", n)
+    return written
+
+
+def history_failing(ctx, case, w, note):
+    """An application that skips records the JSON encoder refuses: write() raises, it carries on with the same
+    writer.  Patterns: B = record that cannot be serialised, G = good record of the type B belongs to (for 'nested':
+    of the type first seen INSIDE the failing record), O = good record of another type."""
+    import sys
+
+    from flow.record import RecordDescriptor
+
+    rng = random.Random(case["s"])
+    b = JBuilder(rng, thorough=False, max_depth=0)
+    kind = case["fk"]
+    limit = sys.get_int_max_str_digits() if hasattr(sys, "get_int_max_str_digits") else 0
+    if kind in ("hugeint", "hugeint-list", "nested") and not limit:
+        ctx.event("failing_history_skipped_no_int_digit_limit")
+        return None
+    huge = 10 ** (limit + 10) if limit else None
+    names = gen.unique_names(rng, 4)
+    if kind == "hugeint":
+        D = b.descriptor(must=["varint"], nfields=rng.randint(1, 4), types=SUPPORTED, allow_keyword=False)
+        fname = next(n for t, n in D.get_field_tuples() if t == "varint")
+
+        def bad():
+            r = b.record(D)
+            setattr(r, fname, huge * rng.choice([1, -1]))
+            return r
+
+        def good():
+            return b.record(D)
+    elif kind == "hugeint-list":
+        D = b.descriptor(must=["varint[]"], nfields=rng.randint(1, 4), types=SUPPORTED, allow_keyword=False)
+        fname = next(n for t, n in D.get_field_tuples() if t == "varint[]")
+
+        def bad():
+            r = b.record(D)
+            setattr(r, fname, [1, huge, 2])
+            return r
+
+        def good():
+            return b.record(D)
+    elif kind == "legacy-ip":
+        base = b.descriptor(nfields=rng.randint(1, 3), types=SUPPORTED, allow_keyword=False)
+        legacy = "legacy_ip" if "legacy_ip" not in [n for _, n in base.get_field_tuples()] else "legacy_ip_2"
+        fl = list(base.get_field_tuples())
+        fl.insert(rng.randrange(len(fl) + 1), ("net.ipv4.Address", legacy))
+        D = RecordDescriptor(base.name, fl)
+
+        def bad():
+            r = b.record(D, focus={legacy: "none"})
+            setattr(r, legacy, "10.0.0.%d" % rng.randrange(1, 250))
+            return r
+
+        def good():
+            return b.record(D, focus={legacy: "none"})
+    else:  # nested: the type of the good records is first seen inside the failing record
+        N = b.descriptor(nfields=rng.randint(1, 3), types=SUPPORTED, allow_keyword=False)
+        R = RecordDescriptor(gen.rand_typename(rng), [("record", names[0]), ("varint", names[1])])
+
+        def bad():
+            return R.recordType(**{names[0]: b.record(N), names[1]: huge})
+
+        def good():
+            return b.record(N)
+    O = b.descriptor(nfields=rng.randint(1, 3), types=SUPPORTED, allow_keyword=False)
+    written = []
+    for ch in case["pat"]:
+        if ch == "B":
+            r = bad()
+            try:
+                w.write(r)
+            except Exception as e:  # noqa: BLE001 - the application skips what cannot be serialised
+                ctx.event("failing_writes_refused")
+                ctx.event("failing_write_exception:" + type(e).__name__)
+                continue
+            ctx.event("failing_history_abandoned_bad_record_was_accepted")
+            note["abandon"] = True
+            return None
+        r = good() if ch == "G" else b.record(O)
+        observe.assert_typed(r, "written")
+        written.append(observe.normalise(observe.obs(r)))
+        w.write(r)  # an exception here is a violation: reported by the caller
+        ctx.event("writes_after_a_refused_record")
+    return written
+
+
+def run_rdump(ctx, src, dst_uri):
+    """rdump <src> -w <dst_uri> in a subprocess against the tree under test.  -> (returncode, stderr tail) or None"""
+    import sys
+
+    repo = os.environ.get("VERIF_REPO", "/repo")
+    code = ("import sys\n"
+            "repo = %r\n"
+            "import os\n"
+            "if os.path.realpath(repo) != '/repo' or os.environ.get('VERIF_FORCE_PATH'):\n"
+            "    sys.path.insert(0, repo)\n"
+            "from flow.record.tools.rdump import main\n"
+            "sys.exit(main(sys.argv[1:]) or 0)\n") % repo
+    try:
+        p = subprocess.run([sys.executable, "-W", "ignore", "-c", code, src, "-w", dst_uri], capture_output=True, text=True, timeout=120)
+    except subprocess.TimeoutExpired:
+        ctx.require(False, "rdump subprocess exceeded its 120 s watchdog")
+        return None
+    return p.returncode, p.stderr[-1500:]
+
+
+def execute_history(ctx, case):
+    from flow.record import RecordReader, RecordWriter
+
+    descriptors, indent = CONFIGS[case["cfg"]]
+    cfgname = "desc=%s/indent=%s" % ("on" if descriptors else "off", indent)
+    ctx.ev()
+    kind = case["k"]
+    note = {}
+    spath = None
+    try:
+        w, path, how = open_writer(ctx, case, descriptors, indent)
+    except Exception as e:  # noqa: BLE001
+        ctx.violation(None, "opening the JSON writer raised %s" % type(e).__name__, detail={"exception": repr(e)[:300], "config": cfgname})
+        return
+    try:
+        if case.get("rdump"):
+            spath = path + ".src.records"
+            note["stream"] = RecordWriter(spath)
+        try:
+            try:
+                written = (history_rewrite if kind == "rewrite" else history_failing)(ctx, case, w, note)
+                w.flush()
+            finally:
+                w.close()
+                if note.get("stream") is not None:
+                    note["stream"].flush()
+                    note["stream"].close()
+        except Exception as e:  # noqa: BLE001
+            ctx.violation(None, "%s history: writing / closing raised %s" % (kind, type(e).__name__),
+                          detail={"exception": repr(e)[:400], "config": cfgname, "opened": how, "case": case})
+            return
+        if written is None:
+            return
+        with open(path, "r", encoding="utf-8", newline="") as f:
+            text = f.read()
+        placeholders = [None] * len(written)
+        check_text(ctx, case, placeholders, written, text, descriptors, indent, cfgname, how)
+        if indent is None:
+            check_read(ctx, RecordReader, path, case, placeholders, written, descriptors, cfgname, how, text)
+        ctx.event("history:%s" % kind)
+        ctx.event("history_records_expected", len(written))
+        ctx.cell("history", kind, case.get("fk", "-"), case.get("pat", "-"), cfgname, case["via"])
+        if spath is not None and indent is None:
+            # the same sequence through `rdump <stream> -w jsonfile://...`: expected = what the stream file holds
+            rd = RecordReader(spath)
+            try:
+                src = [observe.normalise(observe.obs(r)) for r in rd]
+            finally:
+                rd.close()
+            out = path + ".rdump.json"
+            res = run_rdump(ctx, spath, "jsonfile://" + out + ("" if descriptors else "?descriptors=false"))
+            if res is not None:
+                ctx.event("rdump_runs")
+                if res[0] != 0 or not os.path.exists(out):
+                    ctx.violation(None, "rdump -w jsonfile:// failed on a valid record stream", detail={"returncode": res[0], "stderr": res[1], "config": cfgname})
+                else:
+                    try:
+                        with open(out, "r", encoding="utf-8", newline="") as f:
+                            rtext = f.read()
+                        rhow = {"target": "rdump <stream> -w jsonfile://<tmp>/out.json", "kwargs": {}}
+                        check_text(ctx, case, [None] * len(src), src, rtext, descriptors, None, cfgname + "/rdump", rhow)
+                        check_read(ctx, RecordReader, out, case, [None] * len(src), src, descriptors, cfgname + "/rdump", rhow, rtext)
+                        ctx.event("rdump_records_compared", len(src))
+                    finally:
+                        try:
+                            os.unlink(out)
+                        except OSError:
+                            pass
+        ctx.event("config:" + cfgname)
+        ctx.event("via:" + case["via"])
+        if written:
+            ctx.nontrivial(kind, case.get("fk"), case.get("pat"), case["cfg"], case["via"], case["s"])
+        ctx.sample({"case": case, "config": cfgname, "opened": how, "first_lines": text[:300]}, kind=kind + ":" + cfgname)
+    finally:
+        for pth in (path, spath):
+            if pth:
+                try:
+                    os.unlink(pth)
+                except OSError:
+                    pass
 
 
 def execute(ctx, case):
     from flow.record import RecordReader
 
+    if case["k"] in ("rewrite", "fail"):
+        return execute_history(ctx, case)
     descriptors, indent = CONFIGS[case["cfg"]]
     focus = (case["t"], case["vc"]) if case["k"] == "cell" else None
     # JSON has no length classes (unlike msgpack): the 1 MiB strings / 65536-element lists of gen's thorough mode add
@@ -927,6 +1242,9 @@ def finish(ctx):
         ctx.require(ctx.events.get("coincident_sequences", 0) > 0, "no identifier-coincident descriptor sequence was run "
                     "(the variants did not share an identifier on this tree)")
         ctx.require(ctx.events.get("grouped_records_written", 0) > 0, "no grouped record was written")
+        ctx.require(ctx.events.get("rewrite_writes_of_the_same_object", 0) > 0, "no re-used record object was written")
+        ctx.require(ctx.events.get("writes_after_a_refused_record", 0) > 0, "no record was written after a refused one "
+                    "(the encoder refused nothing: sys.get_int_max_str_digits() disabled and legacy field accepted?)")
     if ctx.evaluations:
         for q in ANCHORS[:5]:
             ctx.require(ctx.reach.get(q, 0) > 0, "anchor %s was never entered" % q)
